@@ -938,7 +938,7 @@ func (m *Monitor) afterCall(i int, op *Op, f *Fn, rec *OpRec) {
 // fnDotName: the "package.Name" dig reports for a harness function.
 func fnDotName(f *Fn) string {
 	if f.LocPC > 0 {
-		return fmt.Sprintf("digverif/vt.Loc%d", f.LocPC-1)
+		return "digverif/vt." + LocNames[f.LocPC-1]
 	}
 	if f.Pool > 0 {
 		return poolName(f.Pool - 1)
